@@ -643,3 +643,96 @@ pub fn debug_check<T>(r: &mut Rep, vs: &[T], got: &dyn Fn(&T, bool) -> String, m
         }
     }
 }
+
+// ------------------------------------------------------------------------------------------
+// C20: unions are byte-wise
+
+pub fn slice_trace(bytes: &[u8]) -> Vec<String> {
+    let mut h = RecH::new();
+    bytes.hash(&mut h);
+    h.0
+}
+
+pub fn byte_domain(size: usize, full_limit: usize) -> Vec<Vec<u8>> {
+    // every pattern when 256^size <= full_limit, else each byte over {0x00, 0x01, 0xFF}
+    let mut out: Vec<Vec<u8>> = vec![vec![]];
+    let full = (256usize).checked_pow(size as u32).map(|n| n <= full_limit).unwrap_or(false);
+    for _ in 0..size {
+        let mut next = Vec::new();
+        for p in &out {
+            if full {
+                for b in 0..=255u8 {
+                    let mut q = p.clone();
+                    q.push(b);
+                    next.push(q);
+                }
+            } else {
+                let alph: &[u8] = if size <= 4 { &[0x00u8, 0x01, 0xFF] } else { &[0x00u8, 0xFF] };
+                for &b in alph {
+                    let mut q = p.clone();
+                    q.push(b);
+                    next.push(q);
+                }
+            }
+        }
+        out = next;
+    }
+    out
+}
+
+pub struct UnionOps<'a, T> {
+    pub size: usize,
+    pub mk: &'a dyn Fn(&[u8]) -> T,
+    pub bytes: &'a dyn Fn(&T) -> Vec<u8>,
+    pub name: Option<&'static str>,
+    pub debug: Option<&'a dyn Fn(&T, bool) -> String>,
+    pub eq: Option<&'a dyn Fn(&T, &T) -> bool>,
+    pub hash: Option<&'a dyn Fn(&T) -> Vec<String>>,
+    pub clone: Option<&'a dyn Fn(&T) -> T>,
+}
+
+pub fn union_check<T>(r: &mut Rep, o: &UnionOps<T>, singles_limit: usize, pairs_limit: usize) {
+    let singles = byte_domain(o.size, singles_limit);
+    for b in &singles {
+        let x = (o.mk)(b);
+        r.ck((o.bytes)(&x) == *b, 0, &|| format!("harness: bytes {:?} do not round-trip", b));
+        if let Some(d) = o.debug {
+            for alt in [false, true] {
+                let want = match o.name {
+                    Some(n) => {
+                        struct M<'a>(&'static str, &'a [u8]);
+                        impl<'a> fmt::Debug for M<'a> {
+                            fn fmt(&self, f: &mut fmt::Formatter<'_>) -> fmt::Result {
+                                f.debug_tuple(self.0).field(&self.1).finish()
+                            }
+                        }
+                        if alt { format!("{:#?}", M(n, b)) } else { format!("{:?}", M(n, b)) }
+                    }
+                    None => if alt { format!("{:#?}", &b[..]) } else { format!("{:?}", &b[..]) },
+                };
+                let got = d(&x, alt);
+                r.ck(got == want, 1 + alt as u64, &|| format!("Debug of bytes {:?}: got {:?}, expected {:?}", b, got, want));
+            }
+        }
+        if let Some(h) = o.hash {
+            let got = h(&x);
+            let want = slice_trace(b);
+            r.ck(got == want, 3, &|| format!("Hash of bytes {:?} fed {:?}, hashing the byte slice feeds {:?}", b, got, want));
+        }
+        if let Some(c) = o.clone {
+            let y = c(&x);
+            r.ck((o.bytes)(&y) == *b, 4, &|| format!("clone of bytes {:?} has bytes {:?}", b, (o.bytes)(&y)));
+        }
+    }
+    if let Some(e) = o.eq {
+        let dom = byte_domain(o.size, pairs_limit);
+        for a in &dom {
+            let x = (o.mk)(a);
+            for b in &dom {
+                let y = (o.mk)(b);
+                let got = e(&x, &y);
+                r.ck(got == (a == b), 5 + (a == b) as u64, &|| format!("{:?} == {:?} gave {}", a, b, got));
+            }
+        }
+    }
+}
